@@ -136,6 +136,14 @@ class Parameter:
             # a single finite limit: the periodic fold needs a finite width, so the
             # proposal is mirrored in the limit it crossed
             return 2 * lower - prop if prop < lower else 2 * self.upper - prop
+        # a proposal which has crossed one limit by less than a width is mirrored in that
+        # limit directly (the general fold below loses its digits below the rounding of
+        # the width: with an upper limit of 1e30 standing for 'none' every such proposal
+        # would be folded onto the lower limit itself)
+        if prop < lower and lower - prop <= width:
+            return 2 * lower - prop
+        if prop > self.upper and prop - self.upper <= width:
+            return 2 * self.upper - prop
         d = prop - lower
         n = (d // width) % 2
         if n == 0:
